@@ -32,6 +32,9 @@ V4 = [(6, 2), (6 + D, 1e-4), (0, 10), (20, 1)]
 V3 = [(6, 2), (0, 1e-4), (14, 10)]
 V2 = [(6, 2), (-2, 1e-4)]
 V28 = [(m, s) for m in M7 for s in S4]
+# far apart AND equal-mu pairs with very different sigma (a pair loop that stops early "because the remaining opponents are further away"
+# forgets that the pair scale depends on the opponent's sigma): used for the permutation checks of the predictors in the quick tier
+VF = [(20, 1e-4), (20, 10), (-20, 1e-4), (-20, 10), (-20, 2), (6, 2), (0, 1e-4)]
 X41 = [0.0] + [sg * v for v in (2.0 ** -30, .25, .5, 1, 1.5, 2, 3, 4, 5, 5.5, 6, 6.5, 7, 7.5, 8, 8.12, 8.13, 8.3, 9, 12)
                for sg in (1, -1)]
 SHAPES_S2 = [(1, 1), (1, 2), (2, 1), (2, 2), (1, 3), (3, 1)]
@@ -346,7 +349,7 @@ def pred_games(space, cfg):
         yield from games_P2(cfg)
         return
     tab = {"G3": (3, V28), "G4": (4, V12), "G5": (5, V6), "G6": (6, V4), "G7": (7, V3), "G8": (8, V3),
-           "G4|V6": (4, V6), "G5|V4": (5, V4), "G3|V12": (3, V12), "G6|V2": (6, V2), "G7|V2": (7, V2)}
+           "G4|V6": (4, V6), "G5|V4": (5, V4), "G3|V12": (3, V12), "G3|VF": (3, VF), "G4|VF": (4, VF), "G6|V2": (6, V2), "G7|V2": (7, V2)}
     if space in tab:
         n, al = tab[space]
         yield from games_T(n, al, cfg)
